@@ -504,32 +504,31 @@ theorem execScriptBytes_inv {tests : List Test} {tcs : List Exec.TC} {runs : Lis
               (Except.ok [] : Except Divider.IterErr (List (Divider.Bytes × Int)))
             else Divider.iterate modelSalt (some runs.length)
               (rend cfg (if decide (cfg.outputStream = some Yaml.Stream.combined) = true then []
-               else scriptStream (fun r => r.ran.stderr) (fun _ => 0) 0 runs))) =
+               else scriptStream (fun r => r.ran.stderr) (fun r => r.ran.code.toNat) 0 runs))) =
             .ok (if cfg.outputStream = some .combined then []
-              else runs.map fun r => (rend cfg r.ran.stderr, (0 : Int))) := by
+              else runs.map fun r => (rend cfg r.ran.stderr, ((r.ran.code.toNat : Nat) : Int))) := by
           by_cases hc : cfg.outputStream = some .combined
           · simp [hc]
           · simp only [hc, decide_false, Bool.false_eq_true, if_false]
             rw [rend_scriptStream,
-              iterate_scriptStream (some runs.length) (fun r => rend cfg r.ran.stderr) (fun _ => 0) runs hleave ?_
+              iterate_scriptStream (some runs.length) (fun r => rend cfg r.ran.stderr) (fun r => r.ran.code.toNat) runs hleave ?_
                 hbig (by intro n hn; cases hn; exact Nat.le_refl _)]
-            · simp
-            · intro r hr
-              have hs := hsalt r hr
-              simp only [saltFree, Bool.and_eq_true] at hs
-              exact ⟨noSalted_rend cfg _ hs.1.2, by decide⟩
+            intro r hr
+            have hs := hsalt r hr
+            simp only [saltFree, Bool.and_eq_true] at hs
+            exact ⟨noSalted_rend cfg _ hs.1.2, (codeOk_spec (hcode r hr)).1⟩
         rw [herr] at h
         simp only at h
         have hz' : Divider.zipErr (runs.map fun r => (rend cfg (payOut cfg r), r.ran.code))
             (if cfg.outputStream = some .combined then []
-              else runs.map fun r => (rend cfg r.ran.stderr, (0 : Int))) =
+              else runs.map fun r => (rend cfg r.ran.stderr, ((r.ran.code.toNat : Nat) : Int))) =
             runs.map fun r => ⟨rend cfg (payOut cfg r), rend cfg (payErr cfg r), r.ran.code⟩ := by
           by_cases hc : cfg.outputStream = some .combined
           · have hre : rend cfg [] = [] := by unfold rend; split <;> rfl
             simp only [hc, if_true, payErr, hre]
             exact zipErr_maps_nil _ _ runs
           · simp only [hc, if_false, payErr]
-            exact zipErr_maps _ _ _ 0 runs
+            exact zipErr_maps _ _ _ (fun r => ((r.ran.code.toNat : Nat) : Int)) runs
         rw [hz'] at h
         split at h
         · rename_i xs hxs
@@ -764,7 +763,7 @@ theorem scriptSkipHit_cons (skip : Int) (r : SRan) (rs : List SRan) :
 /-- the three ways to skip the document: a command in front of which no command left the shell ended
 with the skip code -- its divider line carries it, or it is the script's own exit status if that
 command itself leaves the shell --, or the skip code is 0 and the script ran to its end (its own
-exit status is that of the last `echo`) -/
+exit status is that of the last `unset`) -/
 theorem scriptSkipHit_iff (skip : Int) : ∀ runs : List SRan, scriptSkipHit skip runs = true ↔
     (∃ (i : Nat) (r : SRan), runs[i]? = some r ∧ r.ran.code = skip ∧
       ∀ (j : Nat) (x : SRan), j < i → runs[j]? = some x → x.leaves = false) ∨
@@ -1078,7 +1077,7 @@ theorem ex_skip0_docTests : CompatDocTests exSkip0Bytes exSkip0Tests :=
     by decide +kernel, by decide +kernel, by decide +kernel, by decide +kernel⟩
 
 /-- **witness**: with the skip code 0 the document is reported `skipped` although no command ended
-with the skip code -- the script's own exit status (that of its last `echo`) is compared with it -/
+with the skip code -- the script's own exit status (that of its last `unset`) is compared with it -/
 theorem ex_skip0_report :
     testDocumentCompatBytes exSkip0Bytes exSkip0Runs = .report [(0, .skipped)] 0 := by
   decide +kernel
